@@ -50,7 +50,7 @@ type Env struct {
 	actsCh chan struct{}
 }
 
-var Styles = []string{"typed", "typedF", "untyped", "idOnly", "constraint", "untypedConstraint", "typedAsync", "untypedAsync"}
+var Styles = []string{"typed", "typedF", "untyped", "idOnly", "constraint", "untypedConstraint", "typedAsync", "untypedAsync", "idAny", "untypedAny"}
 
 func payloadOf(e boltz.Entity, tok *project.Tokens) string {
 	ns := func(p *string) string {
@@ -167,6 +167,13 @@ func register[E boltz.Entity](env *Env, st string, store boltz.EntityStore[E]) {
 		store.AddEntityEventListenerF(func(e E) { mk("typedAsync", false)(e) }, ty.async)
 		store.AddListener(mk("untypedAsync", false), ty.async)
 	}
+	// one registration for several change types at once (the type of the change is not part of what these listeners are told)
+	store.AddEntityIdListener(func(id string) {
+		env.record("idAny", Event{St: st, Ty: "any", Id: env.Tok.Model(id)})
+	}, boltz.EntityCreated, boltz.EntityUpdated, boltz.EntityDeleted)
+	store.AddListener(func(e boltz.Entity) {
+		env.record("untypedAny", Event{St: st, Ty: "any", Id: env.Tok.Model(e.GetId())})
+	}, boltz.EntityCreated, boltz.EntityUpdated, boltz.EntityDeleted)
 	store.AddEntityConstraint(typedC[E]{env: env, st: st})
 	store.AddUntypedEntityConstraint(untypedC{env: env, st: st})
 }
